@@ -65,21 +65,41 @@ TIERS = {
 
 # Core alphabet: transformation -> allowed variant indices
 CORE = {
-    "omp_parallel": [0], "omp_single": [0], "omp_target": [0],
+    "omp_parallel": [0], "omp_target": [0],
     "omp_do": [0, 1], "omp_loop": [0, 1], "omp_paralleldo": [0],
-    "omp_taskloop": [0],
-    "acc_parallel": [0], "acc_kernels": [0], "acc_loop": [0, 1, 4],
-    "acc_routine": [0], "acc_data": [0],
+    "acc_parallel": [0], "acc_kernels": [0], "acc_loop": [0, 1],
+    "acc_routine": [0],
 }
 
 _STATE = {"tier": None, "states": None, "stats": None}
 _SCRATCH = None
 
 
+def _cfg(tier):
+    """Tier configuration; VERIF_C10_DEV="seeds=a,b;full=N;core=M" narrows it for
+    development runs only (recorded in bounds(), never used by registered
+    commands)."""
+    cfg = dict(TIERS[tier], seeds=list(core.SEED_ORDER))
+    dev = os.environ.get("VERIF_C10_DEV")
+    if dev:
+        for part in dev.split(";"):
+            name, _, val = part.partition("=")
+            if name == "seeds":
+                cfg["seeds"] = [s for s in core.SEED_ORDER
+                                if s in val.split(",")]
+            elif name == "full":
+                cfg["depth_full"] = int(val)
+            elif name == "core":
+                cfg["depth_core"] = int(val)
+        cfg["dev_override"] = dev
+    return cfg
+
+
 def bounds(tier):
-    cfg = TIERS[tier]
+    cfg = _cfg(tier)
     return {
-        "seeds": core.SEED_ORDER,
+        "dev_override": cfg.get("dev_override"),
+        "seeds": cfg["seeds"],
         "families": core.FAMILIES,
         "depth_full": cfg["depth_full"],
         "depth_core": cfg["depth_core"],
@@ -136,13 +156,13 @@ def _expand(task):
     return out
 
 
-def _bfs(pool, depth, only_core):
+def _bfs(pool, seeds, depth, only_core):
     """Level-synchronous BFS.  Returns {digest: record}; deterministic: the
     frontier is processed in order and the first history that reaches a
     state is its representative."""
     states = {}
     frontier = []
-    for seed in core.SEED_ORDER:
+    for seed in seeds:
         for fam in core.FAMILIES:
             psyir, routine, _ = core.build(seed, [])
             dig = _state_digest(seed, fam, routine, core.write(psyir))
@@ -179,11 +199,11 @@ def _worker_init():
 
 
 def prepare(tier):
-    cfg = TIERS[tier]
+    cfg = _cfg(tier)
     ctx = mp.get_context("fork")
     with ctx.Pool(_jobs(), initializer=_worker_init) as pool:
-        full = _bfs(pool, cfg["depth_full"], False)
-        cor = _bfs(pool, cfg["depth_core"], True)
+        full = _bfs(pool, cfg["seeds"], cfg["depth_full"], False)
+        cor = _bfs(pool, cfg["seeds"], cfg["depth_core"], True)
     merged = dict(full)
     for dig, rec in cor.items():
         if dig not in merged:
@@ -323,8 +343,12 @@ def run_case(case):
         if sample is None and history and has_dir:
             sample = {"seed": seed, "history": core.hist_str(history),
                       "emitted": _snippet(text).split("\n")}
+    def sig_of(pos, errors):
+        return {sig for sig, _msg in
+                _judge_text(texts[pos][2], texts[pos][3], {"errors": errors})}
+
     results, runs = gfc.compile_batch([t[1] for t in texts], _SCRATCH,
-                                      f"{os.getpid()}")
+                                      f"{os.getpid()}", sig_of)
     for (idx, _renamed, root, text, bad_struct), res in zip(texts, results):
         history = case["states"][idx]["h"]
         if res["unsupported"] and not res["errors"]:
@@ -337,10 +361,14 @@ def run_case(case):
             count("emitted:INVALID")
         else:
             count("emitted:accepted")
+    sig_counts = {}
+    for vio in viol:
+        sig_counts[vio["sig"]] = sig_counts.get(vio["sig"], 0) + 1
     out = {"evals": len(case["states"]), "nontrivial": nontrivial,
            "states": len(case["states"]), "transitions": transitions,
            "validated": len(case["states"]), "classes": classes, "viol": viol,
-           "extra": {"gfortran_runs": runs}}
+           "extra": {"gfortran_runs": runs,
+                     "violation_signatures": sig_counts}}
     if sample:
         out["sample"] = sample
     return out
